@@ -1249,18 +1249,22 @@ esccpy(char *restrict tgt, size_t tz, const char *src, size_t sz)
 			break;
 		case '\\':
 			/* ah, one of them escape sequences */
+			if (UNLIKELY(++si >= sz)) {
+				/* nothing to escape, keep the backslash */
+				ti++;
+				break;
+			}
 			switch (src[si]) {
 			case 'n':
 			case 'N':
 				tgt[ti++] = '\n';
-				si++;
 				break;
 			case '"':
 			case ';':
 			case ',':
 			case '\\':
 			default:
-				tgt[ti++] = src[si++];
+				tgt[ti++] = src[si];
 				break;
 			}
 			break;
